@@ -38,7 +38,7 @@ func (m *polModel) clone() *polModel {
 func pkPool() []string {
 	var l []string
 	for i := 0; i < 5; i++ {
-		l = append(l, fmt.Sprintf("02%064x", i+1))
+		l = append(l, fmt.Sprintf("02abcdef%058x", i+1)) // with hex letters, so that upper / mixed case is a different string
 	}
 	return l
 }
@@ -48,7 +48,7 @@ func genPk(t *rapid.T, label string) string {
 	return rapid.OneOf(
 		rapid.SampledFrom(pool),
 		rapid.SampledFrom(pool),
-		rapid.SampledFrom([]string{"", "02abc", strings.ToUpper(pool[0]), pool[0] + "00", pool[0][:65], "zz" + pool[0][2:], " " + pool[0], pool[0] + "\n", "02" + strings.Repeat("g", 64)}),
+		rapid.SampledFrom([]string{"", "02abc", strings.ToUpper(pool[0]), strings.ToUpper(pool[1]), "02ABcdef" + pool[2][8:], pool[0] + "00", pool[0][:65], "zz" + pool[0][2:], " " + pool[0], pool[0] + "\n", "02" + strings.Repeat("g", 64)}),
 	).Draw(t, label)
 }
 
@@ -97,7 +97,16 @@ func propC25PolicyStateMachine(t testing.TB) {
 		}
 		if style != "empty" && style != "missing" {
 			for _, pk := range pkPool() {
-				switch rapid.IntRange(0, 5).Draw(t, "pre-"+pk[60:]) {
+				switch rapid.IntRange(0, 7).Draw(t, "pre-"+pk[60:]) {
+				case 6:
+					// the same entry twice (hand-edited or merged file); the loader accepts it
+					lines = append(lines, "allowlisted_peers"+eq+pk, "allowlisted_peers"+eq+pk)
+					m.allow[pk] = true
+					classes["file-has-duplicate-entry"] = true
+				case 7:
+					lines = append(lines, "suspicious_peers"+eq+pk, "allowlisted_peers"+eq+pk, "suspicious_peers"+eq+pk)
+					m.allow[pk], m.susp[pk] = true, true
+					classes["file-has-duplicate-entry"] = true
 				case 0:
 					lines = append(lines, "allowlisted_peers"+eq+pk)
 					m.allow[pk] = true
